@@ -201,3 +201,29 @@ TEXT["C05"] = {
  "note": "Trusted: Lean kernel, Mathlib's elliptic-curve group law (checked by the kernel), cxx2lean translator (clang AST -> SSA), harness and judge.",
  "technique": "Lean 4 proof (field_simp/linear_combination over generated Jacobian formulas, case analysis; transfer to Mathlib's elliptic-curve group) + differential correspondence",
 }
+TEXT["C02"] = {
+ "level": "Lean 4 theorems covering EVERY operation the property names.  (a) For every limb base B and limb count n (so 64- and 32-bit word builds), about executable models that mirror bigint.hpp/fp.hpp loop for loop: BigInt add/subtract/shift/multiply/square/compare; FpBase add/multiply2/subtract/negate/reduce = (a+b)%p, 2a%p, (a-b)%p, (-a)%p, canonical, negate 0 = 0; "
+          "word-serial Montgomery reduce/multiply/square/set/get, get(set x) = x % p; canonical limbs unique; constants R, R2, inv are what the algorithms require.  "
+          "(b) (C02b, models in Impl/FpUtils.lean mirroring fp_utils.hpp/fq.cpp/fr.cpp statement by statement; q and r PROVED prime): fp_inverse (binary extended Euclid on the stored Montgomery limbs: loop invariant, fuel never exhausted on reduced input) = x^-1 for every x, 0 -> 0; exponentiate (default and side-channel-resistant loop) = x^e; "
+          "Legendre symbol in {0,1,-1} and = 1 iff non-zero square (Euler); Fq::square_root squares to a exactly when a is a square (q = 3 mod 4), returns +-y on y^2; Fr::square_root (Tonelli-Shanks with the library's constants: 2-adic order 32, root of unity of exact order 2^32, all kernel-checked) returns a root iff a is a square and never exhausts its loop on squares; "
+          "hash_reduce = (input mod 2^381 resp. 2^255) mod p by one conditional subtraction, result < p, returned flag = top bit; random = first masked draw below p, result < p; big-endian byte I/O: write = 48/32-byte big-endian value, read masks the unused top bits and reduces, read(write x) = x.  "
+          "Models tied to the code by the judge on all back ends: every op's real output must equal the Spec AND the Impl model exactly (boundary operands: sums on/around p and 2^384, top-word ties, carry chains, T = p*R-1, inverse of 1, p-1, 2^k...).",
+ "note": "Trusted: the hand-written value-level models mirror the C++ (checked by running both on every run), Lean kernel.  'uniform' for random is the first-accepted-draw statement, not a probability statement.  Fq::compare orders Montgomery representatives (as coded; used by C09's sign rule).",
+ "technique": "Lean 4 proof (induction over limbs; Montgomery invariant; binary-GCD and Tonelli-Shanks loop invariants; finite-field theory) + differential correspondence on 3-7 back-end configurations",
+}
+TEXT["C09"] = {
+ "level": "Lean 4 theorems about the encode/decode models (hand-written mirrors of curve.cpp Encoding::encode/decode, get_point_from_x, Fq/Fq2 parsing and square roots; tied to the real code by the judge), with NO remaining hypothesis (q proved prime; Fq, Fq2 fields): "
+          "decode(encode P) = P for every curve point of either group in BOTH forms, checked and unchecked (checked needs P in the subgroup), and both forms decode to the same point; Fq::sqrt / the Fq2 'complex method' square to a exactly when a is a square (and what they return on non-squares); "
+          "get_point_from_x returns the root selected by the flag, both roots reachable, exactly one of y, -y is 'greater' (no 2-torsion on either curve: -b is not a cube, closed facts); "
+          "CANONICITY: validating decode bs = some P  IFF  P is on the curve, in the subgroup and bs = encode P - for both forms and both groups (flags, reduced coordinates, sign bit, identity padding), hence decode is injective and rejects everything the encoder cannot produce.  "
+          "Correspondence: every flag flip, x+q / y+q, off-curve, non-subgroup (incl. isomorphic-curve points), padded identity, random strings, all four instantiations, through the C API.",
+ "note": "Trusted: hand models mirror curve.cpp (tied by the correspondence).  The subgroup predicate is 'r*P = identity' as coded.",
+ "technique": "Lean 4 proof (case analysis of the decoder, byte-list lemmas, finite-field square-root theory) + differential correspondence against the canonical-decoding specification",
+}
+TEXT["C15"] = {
+ "level": "Lean 4 theorems about the marshalling models: marshalled length = the length functions exactly, for every object; the length recovered from a marshalled buffer = the slot count; the 4-byte slot index round-trips; and (C15b, using C09's round trips) unmarshal(marshal x) = x for parameters, secret keys with any number of free slots, ciphertexts, signatures and master keys in BOTH encodings, "
+          "with the three facts of the format as explicit, satisfiable hypotheses (compressed parameters: the stored pairing value is the recomputed e(g2,g1); hsig/bsig are the identity when the signature flag is clear; slot indices < 2^32); the two wire forms unmarshal to the same object; checked unmarshal of signatures/master keys accepts exactly the marshaller's range.  "
+          "Correspondence (two-pass: bytes produced by the real marshal are fed back): every object type, both encodings, signatures on/off; unmarshal(marshal(x)) compared field by field with x; the unmarshalled key is marshalled AGAIN by the real code and must equal the model's bytes (multi-byte slot indices included); every single-byte corruption region must be rejected by validating unmarshal; LQ-IBE objects likewise.",
+ "note": "The unmarshal models used by the round-trip theorems are defined in Proofs/EncodeProofs.lean mirroring the judge's readers (Driver/Judge6.lean), which are what is run against the real code; parameters/keys accept any non-zero signature byte and GT bytes are not validated by the library, so for those the unmarshallers accept more than the marshaller's range (a property of the format).  Trusted: hand models mirror marshal.cpp.",
+ "technique": "Lean 4 proof (byte-list length arithmetic, reader/writer round trips built on the point-encoding theorems) + two-pass differential correspondence",
+}
